@@ -52,22 +52,12 @@ func (f *Loop) Call(s *slip.Scope, args slip.List, depth int) (result slip.Objec
 			args[i] = slip.ListToFunc(ns, list, d2)
 		}
 	}
-top:
 	for {
 		for _, form := range args {
-			if tr, ok := ns.Eval(form, d2).(*slip.ReturnResult); ok {
-				if tr.Tag == nil {
-					result = tr.Result
-					break top
-				}
-				if s.Block {
-					result = tr
-					break top
-				}
-				// slip.ErrorPanic(s, depth, "return from unknown block: %s", tr.Tag)
+			if result = ns.Eval(form, d2); slip.IsExit(result) {
+				return loopExit(result)
 			}
-			// Anything other than ReturnResult continues.
+			// Anything other than a return-from, return, or go continues.
 		}
 	}
-	return
 }
